@@ -17,6 +17,8 @@ from mc import symtree as st
 WPE = pg.WritePermissionError
 ACCESSOR_KINDS = ('set', 'del', 'setattr', 'delattr', 'setslice', 'delslice')
 ROOTS = ('dict', 'list', 'obj', 'tdict', 'tlist', 'typedobj', 'rolist')
+# roots that are sealed when constructed (constructor flag, class default, clone of a sealed value)
+CTOR_SEALED = ('obj_sealed', 'dict_sealed', 'list_sealed', 'sealed_by_default', 'clone_of_sealed')
 
 
 def snapshot(root):
@@ -102,7 +104,12 @@ def run_case(rec, item):
     pnode = st.resolve(root, ppath)
     trace = dict(root=root_name, ppath=list(ppath), cfg=cfg, op=op)
     base = f'{type(pnode).__name__}/{st.op_class(op)}'
-    if cfg['flag']:
+    if cfg['flag'] == 'ctor':
+      unsealed = [keys for keys, n, _, _ in st.walk(pnode) if not n.is_sealed]
+      if unsealed:
+        rec.viol(f'constructed-sealed-not-deep/{type(pnode).__name__}',
+                 f'{root_name} is sealed at construction but descendants {unsealed} report unsealed', trace)
+    elif cfg['flag']:
       pnode.seal()
       unsealed = [keys for keys, n, _, _ in st.walk(pnode) if not n.is_sealed]
       if unsealed:
@@ -118,7 +125,8 @@ def run_case(rec, item):
       continue
     s_scope = cfg['sealed'][-1] if cfg['sealed'] else None
     a_scope = cfg['acc'][-1] if cfg['acc'] else None
-    sealed_eff = tnode.is_sealed if s_scope is None else s_scope
+    under_sealed = bool(cfg['flag']) and cfg['flag'] != 'unseal'   # target lies at or below the sealed node
+    sealed_eff = (tnode.is_sealed or under_sealed) if s_scope is None else s_scope
     writable_eff = tnode.accessor_writable if a_scope is None else a_scope
     before = snapshot(root)
     with scopes(cfg):
@@ -163,6 +171,9 @@ def items(thorough):
     for keys, node, _, _ in st.walk(w['roots'][0]):
       for cfg in configs(thorough):
         out.append((rn, tuple(keys), cfg))
+  for rn in CTOR_SEALED:
+    for sealed in ((), (None,), (False,), (True,), (False, None)):
+      out.append((rn, (), dict(flag='ctor', sealed=sealed, acc=())))
   return out
 
 
